@@ -195,6 +195,9 @@ def pty_placement(case, acc):
         desc = 'plan %s placed at sites %r (%s), reader %s size %d %s; trace: %s' % (
             ''.join(plan), placement, ', '.join('%s before %s' % (plan[a], nm) for a, nm in sites.before_action),
             reader, size, 'poll' if poll else 'select', tr)
+        if eof and not (state['closed'] or state['exited']):
+            acc.violation('eof-while-peer-alive:pty', desc + '; EOF reported although the peer had neither closed nor exited', case)
+            return
         if sites.schedule:
             # the reader finished before every action was placed: nothing to judge beyond the prefix law
             if not want.startswith(got):
@@ -344,11 +347,17 @@ def inproc_placement(case, acc):
         want = b''.join(written)
         acc.count('eof_checks')
         desc = '%s plan %s at %r size %d: ' % (tr, ''.join(plan), placement, size)
+        if eof and wfd[0] is not None:
+            acc.violation('eof-while-peer-alive:' + tr, desc + 'EOF reported although the peer had not closed', case)
+            return
         if sites.schedule:
             if not want.startswith(got):
                 acc.violation('data-corrupted:' + tr, desc + 'got %r' % got[-40:], case)
             return
         closed = wfd[0] is None
+        if eof and not closed:
+            acc.violation('eof-while-peer-alive:' + tr, desc + 'EOF reported although the peer had not closed', case)
+            return
         if closed and not eof:
             acc.violation('no-eof-after-peer-ended:' + tr, desc + 'trace %s' % ' '.join(sites.trace[:20]), case)
             return
